@@ -4,8 +4,8 @@ import "bytes"
 
 // ---- C03: literal text is copied verbatim; only trim markers and comments remove bytes ----
 
-var c03LeftC = []string{"{*", "[*", "<#", "{*", "<#", "{*", "<!--", "\u00a1"}
-var c03RightC = []string{"*}", "*]", "#>", "*}", "#>", "*}", "-->", "!"}
+var c03LeftC = []string{"{*", "[*", "<#", "{*", "<#", "{*", "<!--", "\u00a1", "<#", "{*"}
+var c03RightC = []string{"*}", "*]", "#>", "*}", "#>", "*}", "-->", "!", "*}", "#}"}
 
 func c03IsWS(b byte) bool { return b == ' ' || b == '\t' || b == '\r' || b == '\n' }
 
@@ -54,12 +54,16 @@ func c03Render(set *Set, src string) (string, error) {
 //
 //gosym:reach plain,ltrim,rtrim,both,comment
 func H_C03_text() {
-	cfgs := []int{0, 1, 5, 6, 7} // quick: default, "[[ ]]"+"[* *]", "<%= %>", "${ }"+"<!-- -->", non-ASCII guillemets + inverted exclamation mark
+	cfgs := []int{0, 1, 5, 6, 7, 8, 9} // quick: default, "[[ ]]"+"[* *]", "<%= %>", "${ }"+"<!-- -->", non-ASCII guillemets + inverted exclamation mark
 	if vfTier() == 1 {
-		cfgs = []int{0, 1, 2, 3, 4, 5, 6, 7}
+		cfgs = []int{0, 1, 2, 3, 4, 5, 6, 7, 8, 9}
 	}
 	cfg := cfgs[ndChoice("cfg", len(cfgs))]
 	form := ndChoice("form", 5)
+	if cfg >= 8 {
+		// one-sided comment configurations differ from the default only in comments
+		vfAssume(form == 4)
+	}
 	// quick: 2 bytes on each side with the default delimiters, 1 byte with custom ones;
 	// thorough: 2 bytes everywhere
 	n := 1
